@@ -25,6 +25,14 @@ def label_sites(fn):
         k = counters.get(kind, 0)
         counters[kind] = k + 1
         node._site = f"{kind}#{k}"
+        if kind == 'call':
+            # second, edit-tolerant name for ghost hooks: call:<callee name>#<ordinal among calls of that name>
+            f = node.func
+            nm = f.attr if isinstance(f, ast.Attribute) else (f.id if isinstance(f, ast.Name) else None)
+            if nm is not None:
+                k2 = counters.get('call:' + nm, 0)
+                counters['call:' + nm] = k2 + 1
+                node._site2 = f"call:{nm}#{k2}"
 
     def visit(node):
         for child in ast.iter_child_nodes(node):
@@ -127,12 +135,15 @@ class StmtMixin:
             s.lists[ref.lid] = self.list_append(l, cv)
             yield s, NORMAL
 
-    def run_ghost(self, st, site, extra=None):
+    def run_ghost(self, st, site, extra=None, site2=None):
         spec = self.top_spec
         if spec is None or not spec.ghost_at:
             return
         key = site if st.cur == self.top_frame else f"{st.frame.label}:{site}"
         h = spec.ghost_at.get(key)
+        if h is None and site2 is not None:
+            key = site2 if st.cur == self.top_frame else f"{st.frame.label}:{site2}"
+            h = spec.ghost_at.get(key)
         if h is None:
             return
         self.ghost_sites_hit.add(key)
